@@ -240,6 +240,19 @@ theorem C01_program (src : List Val) (steps : List Step) (h : stepsSupported ste
   rw [hshape]
   exact C01_pipeline xs rest hb n
 
+/-- "any partition count", said directly: two parallel runs of the same program with different partition counts
+    return the same rows in the same order (or the same error) — the count is not observable in the result -/
+theorem C01_partition_count_irrelevant (src : List Val) (steps : List Step) (h : stepsSupported steps = true)
+    (n m : Nat) : runPar src steps n = runPar src steps m := by
+  rw [C01_program src steps h n, C01_program src steps h m]
+
+/-- … and the same for any chain of built nodes (arbitrary lawful combiners, arbitrary fan-out) -/
+theorem C01_pipeline_partition_count_irrelevant (xs : List Val) (rest : List (Node Part))
+    (h : ∀ nd ∈ rest, Built nd) (n m : Nat) :
+    execPar List.flatten (optimise (vecSource xs :: rest)) n
+      = execPar List.flatten (optimise (vecSource xs :: rest)) m := by
+  rw [C01_pipeline xs rest h n, C01_pipeline xs rest h m]
+
 /-- the same for the literal (un-planned) chain: the parallel engine on `litChain` returns what
     `runLiteral` (the reference of C02/C03) returns -/
 theorem C01_program_literal (src : List Val) (steps : List Step) (h : stepsSupported steps = true)
